@@ -86,12 +86,25 @@ def bootStr : Option Boot → String
 def addResStr : AddRes → String
   | .ok => "ok" | .exists_ => "exists" | .noParent => "no-parent" | .preMismatch => "pre-mismatch"
 
+/-- Following `pre` from the group that `gcurrent` names never ends. The real start-up then
+    never returns (`refreshCache` has no cycle guard); only reachable after a crash in the middle
+    of `remove`. The harness does not restart such a store; both sides answer `unmodelled`. -/
+def preCycle (d : Store) : Bool :=
+  match sget d curKey with
+  | some (.ref id) =>
+    match getGroupById d id with
+    | some g => (iterWalk d (d.length + 1) g).length > d.length
+    | none => false
+  | _ => false
+
 /-- After a crashed op: restart on what reached the disk. -/
 def afterRun (s : DState) (pre : String) : Run → DState × String
   | .done c _ =>
+    if preCycle c.disk then ({ s with boot := none }, "unmodelled") else
     let b := restart c.disk c.mirror s.genesis
     ({ s with boot := b }, pre ++ " / " ++ bootStr b)
   | .crashed d m =>
+    if preCycle d then ({ s with boot := none }, "unmodelled") else
     let b := restart d m s.genesis
     ({ s with boot := b }, "crashed / " ++ bootStr b)
 
@@ -179,6 +192,7 @@ def step (s : DState) (line : String) : DState × String :=
     | some (.alive c) =>
       match ws with
       | ["restart"] =>
+        if preCycle c.disk then ({ s with boot := none }, "unmodelled") else
         let b := restart c.disk c.mirror s.genesis
         ({ s with boot := b }, bootStr b)
       | "crash" :: k :: rest =>
